@@ -15,14 +15,16 @@ const MIN_NS: i128 = 60 * NS;
 const HORIZON: i64 = 40 * 366;
 
 /// Does `next()` of a fresh clone, with the clock at `t − 1 min`, return exactly minute `t`?
-pub fn observe_member(s: &CronSchedule, t: i64) -> Result<bool, Panic> {
+/// Ok(None) = the clock value or the result cannot be built/read trustworthily here (skipped).
+pub fn observe_member(s: &CronSchedule, t: i64) -> Result<Option<bool>, Panic> {
+    let Some((clk, _)) = sane_value((t - 1) as i128 * MIN_NS, 0) else { return Ok(None) };
     trap(|| {
-        astrolabe::verif::pin_now(Some(mk((t - 1) as i128 * MIN_NS)));
+        astrolabe::verif::pin_now(Some(clk));
         let r = s.clone().next();
         astrolabe::verif::pin_now(None);
         match r {
-            Some(dt) => read(&dt) == t as i128 * MIN_NS,
-            None => false,
+            Some(dt) => super::diff::read_checked(&dt).map(|x| x == t as i128 * MIN_NS),
+            None => Some(false),
         }
     })
 }
@@ -242,17 +244,26 @@ fn window_iteration(rec: &mut Rec, expr: &str, sched: &CronSchedule, sets: &Sets
     rec.eval();
     rec.api("CronSchedule::next (window iteration)");
     rec.bin("sets/window-iterated");
+    let Some((clk, _)) = sane_value(start as i128 * MIN_NS, 0) else {
+        rec.bin(super::diff::SKIP_START);
+        return;
+    };
     let r = trap(|| {
-        astrolabe::verif::pin_now(Some(mk(start as i128 * MIN_NS)));
+        astrolabe::verif::pin_now(Some(clk));
         let mut s = sched.clone();
-        let got: Vec<Option<i128>> = (0..n).map(|_| s.next().map(|d| read(&d))).collect();
+        // Some(None) = iterator ended; None = a result that cannot be read trustworthily
+        let got: Option<Vec<Option<i128>>> = (0..n).map(|_| match s.next() {
+            Some(d) => super::diff::read_checked(&d).map(Some),
+            None => Some(None),
+        }).collect();
         astrolabe::verif::pin_now(None);
         got
     });
     let wit = |obs: Value| json!({"expression": expr, "clock_fixed_at": show(start as i128 * MIN_NS), "model_yields": expected.iter().take(8).map(|x| show(*x as i128 * MIN_NS)).collect::<Vec<_>>(), "observed": obs});
     match r {
         Err(p) => rec.violation(format!("C16|window|next|panic|{},{}", p.class, p.site()), || wit(p.to_json())),
-        Ok(got) => {
+        Ok(None) => rec.bin(super::diff::SKIP_EXPECTED),
+        Ok(Some(got)) => {
             for (k, (g, e)) in got.iter().zip(expected.iter()).enumerate() {
                 if *g != Some(*e as i128 * MIN_NS) {
                     let kind = match g {
@@ -278,7 +289,8 @@ fn judge_member(rec: &mut Rec, expr: &str, sched: &CronSchedule, sets: &Sets, t:
     let wit = |obs: Value| json!({"expression": expr, "minute_queried": show(t as i128 * MIN_NS), "probing": probe.map(|(f, v)| format!("{}={}", FIELD_NAMES[f], v)), "model_says_member": exp, "observed": obs});
     match observe_member(sched, t) {
         Err(p) => rec.violation(format!("C16|sets|next|panic|{},{}", p.class, p.site()), || wit(p.to_json())),
-        Ok(got) => {
+        Ok(None) => rec.bin(super::diff::SKIP_EXPECTED),
+        Ok(Some(got)) => {
             if got != exp {
                 let (fname, shape) = match probe {
                     Some((f, _)) => (FIELD_NAMES[f], field_shape(expr, f)),
